@@ -996,6 +996,22 @@ Theorem C11_f64_floor_shape : forall x : PrimFloat.float,
   end /\ Run.RunC11.f64_ceil x = (- Run.RunC11.f64_floor (- x))%float.
 Proof. exact f64_floor_shape. Qed.
 
+(* ... and it IS the mathematical floor / ceiling of the real value, for every finite float (Proofs/Audit11Floor.v: Flocq's
+   Prim2B / B2R, the mantissa bound from `bounded`, exact conversion of integers below 2^53); NaN / infinities unchanged *)
+From Tevec Require Proofs.Audit11Floor.
+Theorem C11_f64_floor_is_floor : forall x : PrimFloat.float, ffin x = true ->
+  ffin (Run.RunC11.f64_floor x) = true /\ f2r (Run.RunC11.f64_floor x) = IZR (Flocq.Core.Raux.Zfloor (f2r x)).
+Proof. exact Proofs.Audit11Floor.f64_floor_spec. Qed.
+Theorem C11_f64_ceil_is_ceil : forall x : PrimFloat.float, ffin x = true ->
+  ffin (Run.RunC11.f64_ceil x) = true /\ f2r (Run.RunC11.f64_ceil x) = IZR (Flocq.Core.Raux.Zceil (f2r x)).
+Proof. exact Proofs.Audit11Floor.f64_ceil_spec. Qed.
+Example C11_ex_floor_premise :
+  (ffin (-2.5)%float = true) /\ (Run.RunC11.f64_floor (-2.5)%float = (-3)%float) /\
+  (Run.RunC11.f64_ceil (-2.5)%float = (-2)%float) /\
+  (Run.RunC11.f64_floor 4503599627370496%float = 4503599627370496%float) /\
+  (PrimFloat.is_nan (Run.RunC11.f64_floor nan) = true).
+Proof. repeat split; vm_compute; reflexivity. Qed.
+
 (* ---- non-vacuity of the audit's implications ----------------------------------------------------------------------- *)
 Example C11_ex_audit_number :
   n_add (DN := IsNoneXR) (Some 1%R) None 3 = (Some 1%R, 3) /\ n_add (DN := IsNoneXR) None (Some 1%R) 3 = (None, 4) /\
@@ -1094,3 +1110,5 @@ Print Assumptions C11_valid_nan_poisons.
 Print Assumptions C11_n_add_fold_binary64.
 Print Assumptions C11_n_add_fold_binary64_error.
 Print Assumptions C11_f64_floor_shape.
+Print Assumptions C11_f64_floor_is_floor.
+Print Assumptions C11_f64_ceil_is_ceil.
